@@ -135,6 +135,15 @@ func (valdec mapDecoder) decodeMap(dec *Decoder, p interface{}) {
 		vp := valdec.vt.UnsafeNew()
 		valdec.decodeKey(dec, kt, kp)
 		valdec.decodeValue(dec, vt, vp)
+		if kt.Kind() == reflect.Interface {
+			// a list, bytes or map as key of a map[interface{}]... cannot be hashed
+			if key := *(*interface{})(kp); key != nil && !reflect.TypeOf(key).Comparable() {
+				if dec.Error == nil {
+					dec.Error = DecodeError("hprose/io: invalid map key of type " + reflect.TypeOf(key).String())
+				}
+				continue
+			}
+		}
 		valdec.t.UnsafeSetIndex(mp, kp, vp)
 	}
 	dec.Skip()
